@@ -8,7 +8,8 @@ depends on the bytes of the cache file is `_read_cached_report`, modelled by
 `readCachedReport`, which maps every damaged file to "no cache" (the `try/except` and
 `_is_well_formed`); that the real function does so for every fault class is the correspondence
 part of this property.  The link from bytes to the abstract cache file is the explicit contract
-`ByteContract`.
+`ByteContract`, restricted to the reports a scan can write; its instance for the real reader and
+writer of `Model/Pipeline.lean` is `C10real.real_contract` (Props/C10real.lean).
 -/
 set_option linter.unusedSectionVars false
 
@@ -24,7 +25,13 @@ variable (P : Params Path Content Hash Entry Excl Version)
 truncated, not JSON, wrong shape), ill-typed, or a document of another version with arbitrary
 entries, the next scan analyses every selected file, reports exactly the fresh report and
 leaves `doc cur (fresh report)` behind, which is honest and usable.  No hypothesis on the
-checksum is needed. -/
+checksum is needed.
+(What this theorem does NOT carry: "the scan completes" is true here because `Cache.scan` is a
+total function, and "missing / junk / other version is not used" is the definition of
+`readCachedReport`.  That the REAL reader classifies every damaged byte string that way and never
+raises is `Gaps.read_cached_abstract`, `Gaps.damaged_not_reusable`, `Pipe.scan_never_raises`,
+`Pipe.rescan_after_interrupted_write` plus the correspondence run; this theorem is the
+consequence: report = fresh report, cache left behind = complete document.) -/
 theorem damaged_cache_harmless (s : State Path Content Hash Entry Excl Version)
     (h : s.cache = .missing ∨ (∃ k, s.cache = .junk k) ∨ (∃ v es, s.cache = .doc v es ∧ v ≠ P.cur)) :
     (scan P s).2 = fresh P s ∧
@@ -105,34 +112,38 @@ theorem markers_only_with_new_directory (s : State Path Content Hash Entry Excl 
 variable {Byte : Type} (isWs : Byte → Bool)
 variable (readCache : List Byte → CacheFile Path Hash Entry Version)
 variable (writeReport : Report Path Hash Entry → List Byte)
+variable (Good : Report Path Hash Entry → Prop)
 
-/-- Under the byte contract, what a reader sees after a write of report `r` was cut short at any
-byte is exactly what the abstract operation `truncate` yields: the unreadable file, or - when
+/-- Under the byte contract, what a reader sees after a write of a `Good` report `r` (`Good`: the
+reports the contract speaks about - for the real writer the reports a scan writes,
+`C10real.real_contract`) was cut short at any byte is exactly what the abstract operation `truncate` yields: the unreadable file, or - when
 only trailing whitespace is missing - the complete document. -/
-theorem truncated_read (hB : ByteContract P Byte isWs readCache writeReport)
-    (r : Report Path Hash Entry) (p : List Byte) (hp : p <+: writeReport r) :
+theorem truncated_read (hB : ByteContract P Byte isWs readCache writeReport Good)
+    (r : Report Path Hash Entry) (hr : Good r) (p : List Byte) (hp : p <+: writeReport r) :
     readCache p =
       truncateCache (((writeReport r).drop p.length).all isWs) (.doc P.cur r) := by
   cases hall : ((writeReport r).drop p.length).all isWs with
   | true =>
     rw [List.all_eq_true] at hall
-    rw [hB.ws_cut r p hp hall, hB.roundtrip]
+    rw [hB.ws_cut r p hr hp hall, hB.roundtrip r hr]
     rfl
   | false =>
     have : ∃ b ∈ (writeReport r).drop p.length, isWs b = false := by
       rw [List.all_eq_false] at hall
       obtain ⟨b, hb, hw⟩ := hall
       exact ⟨b, hb, by simpa using hw⟩
-    rw [hB.prefix_junk r p hp this]
+    rw [hB.prefix_junk r p hr hp this]
     rfl
 
 /-- **C10.2** `truncated_write_harmless`: let a scan in a reachable state be interrupted while
 it writes its report, at ANY byte offset (offset 0 = the file was opened and emptied; the full
 length = the write completed), and let any allowed operations follow.  Then the next scan
-reports the fresh report and leaves the complete document of the current version behind. -/
+reports the fresh report and leaves the complete document of the current version behind.
+The report being written must be one the contract covers (`hgood`).  Instance with every
+hypothesis discharged for the real reader, writer and scan: `C10real.truncated_write_harmless_real`. -/
 theorem truncated_write_harmless (hinj : Function.Injective P.hash)
-    (hB : ByteContract P Byte isWs readCache writeReport)
-    (s : State Path Content Hash Entry Excl Version) (hs : Inv P s)
+    (hB : ByteContract P Byte isWs readCache writeReport Good)
+    (s : State Path Content Hash Entry Excl Version) (hs : Inv P s) (hgood : Good (scan P s).2)
     (p : List Byte) (hp : p <+: writeReport (scan P s).2)
     (ops : List (Op Path Content Hash Entry Excl Version)) (hops : ∀ op ∈ ops, Op.Allowed P op) :
     let s1 : State Path Content Hash Entry Excl Version := { (scan P s).1 with cache := readCache p }
@@ -144,7 +155,7 @@ theorem truncated_write_harmless (hinj : Function.Injective P.hash)
     have hstep := C09.inv_step P (scan P s).1
       (.truncate (((writeReport (scan P s).2).drop p.length).all isWs)) trivial
       (C09.inv_step P s .scan trivial hs)
-    have hr := truncated_read P isWs readCache writeReport hB (scan P s).2 p hp
+    have hr := truncated_read P isWs readCache writeReport Good hB (scan P s).2 hgood p hp
     show Honest P (readCache p) ∨ ¬ Usable P (readCache p)
     rw [hr]
     exact hstep
@@ -174,10 +185,34 @@ example :
         ([(0, 0, 0), (1, 0, 10)], [], [0, 1], .present false),
         ([(0, 0, 0), (1, 0, 10)], [], [0, 1], .present true) ] := by decide
 
-/-- The byte contract is satisfiable (toy serialisation of `Lemmas/CacheToy.lean`: `n` ones, a
-zero, a trailing blank), hence `truncated_write_harmless` has an instance whose hypotheses all
-hold. -/
-example : Function.Injective toyP.hash ∧ ByteContract toyP Nat (· == 32) toyRead toyWrite :=
-  ⟨fun _ _ _ => rfl, toy_contract⟩
+/-- The byte contract is satisfiable inside this file: the small serialisation of
+`Lemmas/CacheToy.lean` over the universe of `C09.exP` (numbers as paths, contents, checksums and
+entries; the checksum is the identity, so it is injective and not constant), for all reports.
+The instance for the real reader and writer is `C10real.real_contract`. -/
+example : toyP = C09.exP ∧ Function.Injective toyP.hash ∧
+    ByteContract toyP Nat toyWs toyRead toyWrite (fun _ => True) :=
+  ⟨rfl, fun _ _ h => h, toy_contract⟩
+
+/-- an instance of `truncated_write_harmless` with all hypotheses discharged and two different
+contents: the write of the first scan's report `[(0,0,0), (1,1,11)]` (8 bytes) is cut after 4
+bytes; then file 0 is changed; the next scan analyses both files and reports the fresh report -/
+example :
+    let s0 : State Nat Nat Nat Nat (List Nat) Nat := init [(0, 0), (1, 1)] []
+    let p := (toyWrite (scan toyP s0).2).take 4
+    let s1 : State Nat Nat Nat Nat (List Nat) Nat := { (scan toyP s0).1 with cache := toyRead p }
+    let s2 := run toyP s1 [.write 0 1]
+    toyWrite (scan toyP s0).2 = [2, 2, 2, 3, 3, 13, 0, 1] ∧ toyRead p = .junk .unreadable ∧
+    (scan toyP s2).2 = fresh toyP s2 ∧ (scan toyP s2).2 = [(0, 1, 1), (1, 1, 11)] ∧
+    toyRead ((toyWrite (scan toyP s0).2).take 7) = .doc 1 (scan toyP s0).2 := by
+  decide
+
+/-- the same through the theorem (every hypothesis holds) -/
+example (p : List Nat) (hp : p <+: toyWrite (scan toyP (init [(0, 0), (1, 1)] [])).2)
+    (ops : List (Op Nat Nat Nat Nat (List Nat) Nat)) (hops : ∀ op ∈ ops, Op.Allowed toyP op) :
+    let s1 : State Nat Nat Nat Nat (List Nat) Nat :=
+      { (scan toyP (init [(0, 0), (1, 1)] [])).1 with cache := toyRead p }
+    (scan toyP (run toyP s1 ops)).2 = fresh toyP (run toyP s1 ops) :=
+  (truncated_write_harmless toyP toyWs toyRead toyWrite (fun _ => True) (fun _ _ h => h) toy_contract
+    (init [(0, 0), (1, 1)] []) (C09.inv_init toyP _ _) trivial p hp ops hops).2.1
 
 end CL.C10
